@@ -211,3 +211,102 @@ row('INDEX.INCREASE', ['C06'], touches=['index'], clauses=[
 row('NOOP', ['C10'])
 row('CODE.NOOP', ['C10'])
 row('NAME.SEND', ['C10'], touches=['send'], clauses=[('fired.flag', 'S1.send == true')])
+
+# ------------------------------------------------------------------ C09: element-wise vector operations (README overlap rule)
+FN_OVERLAYS = {}
+ELEMENTWISE = [
+    # NAME, stack short, fn path, local vector name, op as spec closure, guard on elements (for DIVIDE)
+    ('BOOLVECTOR.AND', 'boolvec', 'vector::bool_vector_and', 'bv', '|a: bool, b: bool| a && b'),
+    ('BOOLVECTOR.OR', 'boolvec', 'vector::bool_vector_or', 'bv', '|a: bool, b: bool| a || b'),
+    ('INTVECTOR.+', 'intvec', 'vector::int_vector_add', 'iv', '|a: i32, b: i32| wrap32(a + b)'),
+    ('INTVECTOR.-', 'intvec', 'vector::int_vector_subtract', 'iv', '|a: i32, b: i32| wrap32(a - b)'),
+    ('FLOATVECTOR.+', 'floatvec', 'vector::float_vector_add', 'iv', '|a: f32, b: f32| f32_add(a, b)'),
+    ('FLOATVECTOR.-', 'floatvec', 'vector::float_vector_subtract', 'iv', '|a: f32, b: f32| f32_sub(a, b)'),
+    ('FLOATVECTOR.*', 'floatvec', 'vector::float_vector_multiply', 'iv', '|a: f32, b: f32| f32_mul(a, b)'),
+]
+# int_vector_multiply / int_vector_divide exist but their registration is commented out in load_vector_instructions:
+# they are not reachable from any program; they keep their loop invariants and are checked for panic-freedom only.
+UNREGISTERED = [('INTVECTOR.*', 'intvec', 'vector::int_vector_multiply', 'iv', '|a: i32, b: i32| wrap32(a * b)')]
+for nm, x, path, V, op in ELEMENTWISE + UNREGISTERED:
+    sec = 'top(S0.%s, 1).values@' % x
+    tp = 'top(S0.%s, 0).values@' % x
+    off = 'top(S0.int, 0) as int'
+    fired = '(S0.%s.len() >= 2 && S0.int.len() >= 1)' % x
+    if (nm, x, path, V, op) not in UNREGISTERED:
+        row(nm, ['C09'], takes=[(x, 2), ('int', 1)], pushes=[(x, None)],
+            clauses=[('fired.value.%s.0' % x, '%s ==> top(S1.%s, 0).values@ =~= overlay(%s, %s, %s, %s)' % (fired, x, sec, tp, off, op))])
+    P = 'push_state'
+    osec = 'top(old(%s).%s@, 1).values@' % (P, {'boolvec': 'bool_vector_stack', 'intvec': 'int_vector_stack', 'floatvec': 'float_vector_stack'}[x])
+    otp = osec.replace(', 1)', ', 0)')
+    FN_OVERLAYS[path] = dict(loops={0: '''            invariant
+                %(V)s@.len() == 2, scd_size == %(sec)s.len(), r3_it0.start <= r3_it0.end, r3_it0.end == %(tp)s.len(),
+                scd_size < 0x7fff_ffff, r3_it0.end < 0x7fff_ffff,
+                %(V)s@[1].values@ == %(tp)s,
+                %(V)s@[0].values@ =~= overlay_upto(%(sec)s, %(tp)s, offset as int, %(op)s, r3_it0.start as int),
+            ensures
+                %(V)s@.len() == 2, %(V)s@[0].values@ =~= overlay(%(sec)s, %(tp)s, offset as int, %(op)s),
+            decreases r3_it0.end - r3_it0.start,
+''' % dict(V=V, sec=osec, tp=otp, op=op)})
+
+# DIVIDE: a zero divisor anywhere in the overlap makes the instruction a NOOP (the operands are consumed)
+VFIELD = {'boolvec': 'bool_vector_stack', 'intvec': 'int_vector_stack', 'floatvec': 'float_vector_stack'}
+for nm, x, path, zero, op in [
+        ('INTVECTOR./', 'intvec', 'vector::int_vector_divide', '%s == 0',
+         '|a: i32, b: i32| if b == 0 { a } else if a == i32::MIN && b == -1 { i32::MIN } else { trunc_div(a as int, b as int) as i32 }'),
+        ('FLOATVECTOR./', 'floatvec', 'vector::float_vector_divide', 'f32_eq(%s, 0.0f32)',
+         '|a: f32, b: f32| if f32_eq(b, 0.0f32) { a } else { f32_div(a, b) }')]:
+    sec = 'top(S0.%s, 1).values@' % x
+    tp = 'top(S0.%s, 0).values@' % x
+    off = 'top(S0.int, 0) as int'
+    nozero = '(forall|i: int| 0 <= i < %s.len() && 0 <= i + (%s) < %s.len() ==> !(%s))' % (tp, off, sec, zero % ('#[trigger] %s[i]' % tp))
+    if nm != 'INTVECTOR./':
+        row(nm, ['C09'], takes=[(x, 2), ('int', 1)], guard=nozero, pushes=[(x, None)],
+            clauses=[('fired.value.%s.0' % x, '(S0.%s.len() >= 2 && S0.int.len() >= 1 && %s) ==> top(S1.%s, 0).values@ =~= overlay(%s, %s, %s, %s)'
+                      % (x, nozero, x, sec, tp, off, op))])
+    osec = 'top(old(push_state).%s@, 1).values@' % VFIELD[x]
+    otp = 'top(old(push_state).%s@, 0).values@' % VFIELD[x]
+    FN_OVERLAYS[path] = dict(loops={0: '''            invariant
+                iv@.len() == 2, scd_size == %(sec)s.len(), r3_it0.start <= r3_it0.end, r3_it0.end == %(tp)s.len(),
+                scd_size < 0x7fff_ffff, r3_it0.end < 0x7fff_ffff,
+                iv@[1].values@ == %(tp)s,
+                iv@[0].values@ =~= overlay_upto(%(sec)s, %(tp)s, offset as int, %(op)s, r3_it0.start as int),
+                invalid <==> (exists|i: int| 0 <= i < r3_it0.start && 0 <= i + offset < %(sec)s.len() && %(z)s),
+            ensures
+                iv@.len() == 2, iv@[0].values@ =~= overlay(%(sec)s, %(tp)s, offset as int, %(op)s),
+                invalid <==> (exists|i: int| 0 <= i < %(tp)s.len() && 0 <= i + offset < %(sec)s.len() && %(z)s),
+            decreases r3_it0.end - r3_it0.start,
+''' % dict(sec=osec, tp=otp, op=op, z=zero % ('#[trigger] %s[i]' % otp))})
+
+# BOOLVECTOR.NOT: the same overlap rule with the vector itself as the shifted operand
+_v = 'top(S0.boolvec, 0).values@'
+row('BOOLVECTOR.NOT', ['C09'], takes=[('boolvec', 1), ('int', 1)], pushes=[('boolvec', None)],
+    clauses=[('fired.value.boolvec.0', '(S0.boolvec.len() >= 1 && S0.int.len() >= 1) ==> top(S1.boolvec, 0).values@ =~= '
+              'Seq::new(%s.len(), |j: int| if 0 <= j - (top(S0.int, 0) as int) < %s.len() { !%s[j] } else { %s[j] })' % (_v, _v, _v, _v))])
+_ov = 'top(old(push_state).bool_vector_stack@, 0).values@'
+FN_OVERLAYS['vector::bool_vector_not'] = dict(loops={0: '''            invariant
+                r3_it0.start <= r3_it0.end, r3_it0.end == %(v)s.len(), r3_it0.end < 0x7fff_ffff, bvval.values@.len() == %(v)s.len(),
+                bvval.values@ =~= Seq::new(%(v)s.len(), |j: int| if 0 <= j - (offset as int) < r3_it0.start { !%(v)s[j] } else { %(v)s[j] }),
+            ensures
+                bvval.values@ =~= Seq::new(%(v)s.len(), |j: int| if 0 <= j - (offset as int) < %(v)s.len() { !%(v)s[j] } else { %(v)s[j] }),
+            decreases r3_it0.end - r3_it0.start,
+''' % dict(v=_ov)})
+
+# instantiate the envelope's per-vector length bound for the two operands (keeps the proofs independent of trigger luck)
+for _nm, _x, _path, _V, _op in ELEMENTWISE + UNREGISTERED + [('INTVECTOR./', 'intvec', 'vector::int_vector_divide', 'iv', ''), ('FLOATVECTOR./', 'floatvec', 'vector::float_vector_divide', 'iv', '')]:
+    _f = VFIELD[_x]
+    FN_OVERLAYS[_path].setdefault('proofs', {})['body_start'] = '''        proof {
+            if push_state.%(f)s@.len() >= 2 {
+                assert(push_state.%(f)s@[push_state.%(f)s@.len() - 1].values@.len() < 0x7fff_ffff);
+                assert(push_state.%(f)s@[push_state.%(f)s@.len() - 2].values@.len() < 0x7fff_ffff);
+            }
+        }
+''' % dict(f=_f)
+FN_OVERLAYS['vector::bool_vector_not'].setdefault('proofs', {})['body_start'] = '''        proof {
+            if push_state.bool_vector_stack@.len() >= 1 {
+                assert(push_state.bool_vector_stack@[push_state.bool_vector_stack@.len() - 1].values@.len() < 0x7fff_ffff);
+            }
+        }
+'''
+
+for _p in ['vector::int_vector_multiply', 'vector::int_vector_divide']:
+    FN_OVERLAYS[_p]['text'] = '    requires envelope(*old(push_state)),\n'
